@@ -1,5 +1,6 @@
 import Texel.Proofs.Route3
 import Texel.Proofs.GenArith
+import Texel.Proofs.GenLineInt
 import Texel.Proofs.NoCollapse
 /-! # C02 — each edge is routed through exactly the hot pixels it meets
 
@@ -14,6 +15,12 @@ open Texel
 /-- the pixel test is exact: closed segment meets half-open pixel -/
 theorem C02_pixel_test (L : Seg) (B : Box) : lineIntersects L B = true ↔ Meets L B :=
   lineIntersects_iff L B
+
+/-- … and it is the pixel test of the current source: the definitions `trgen lineint` regenerates from `pointindex.lineIntersects` on every run
+answer true exactly when the closed segment meets the half-open pixel -/
+theorem C02_pixel_test_source (L : Seg) (B : Box) :
+    Gen.LI.lineIntersects L.p1.x L.p1.y L.p2.x L.p2.y B.minX B.minY B.maxX B.maxY = true ↔ Meets L B := by
+  rw [GenLineInt.gen_lineIntersects]; exact lineIntersects_iff L B
 
 /-- inserting vertices (`insertCoord` on every level) yields hot sets closed under "parent" -/
 theorem C02_hot_closed (g : Grid) (addrs : List Quad) : HotClosed g.depth (hotOf g addrs) :=
